@@ -66,65 +66,81 @@ def scan_forbidden():
 ALLOWED_AXIOMS = set()  # the development is axiom-free; see DESIGN.md 6
 
 
+def props_files(prop):
+    """Props/Cxx.v plus its extension files Props/Cxx<Name>.v (e.g. C13Ext.v, C14Text.v)."""
+    import glob
+    main = os.path.join(COQ, "Props", prop + ".v")
+    more = sorted(f for f in glob.glob(os.path.join(COQ, "Props", prop + "*.v")) if f != main)
+    return [main] + more
+
+
 def check_obligations(prop, tier="quick"):
-    """Compile Props/<prop>.v (dependencies first) and audit its output.
+    """Compile Props/<prop>*.v (dependencies first) and audit their output.
 
     Returns dict(ok, obligations, discharged, theorems, axioms, detail).
     """
-    src = os.path.join(COQ, "Props", prop + ".v")
-    if not os.path.exists(src):
+    files = props_files(prop)
+    if not os.path.exists(files[0]):
         return dict(ok=False, obligations=1, discharged=0, theorems=[], axioms=[],
                     detail="Props/%s.v does not exist" % prop)
-    with open(src) as fh:
-        text = fh.read()
-    theorems = re.findall(r"^\s*(?:Theorem|Example|Lemma)\s+(\w+)", text, re.M)
+    texts = {}
+    theorems = []
+    for f in files:
+        with open(f) as fh:
+            texts[f] = fh.read()
+        theorems += re.findall(r"^\s*(?:Theorem|Example|Lemma)\s+(\w+)", texts[f], re.M)
     res = dict(ok=False, obligations=len(theorems) + 1, discharged=0,
-               theorems=theorems, axioms=[], detail="")
+               theorems=theorems, axioms=[], detail="", files=[os.path.basename(f) for f in files])
     forb = scan_forbidden()
     if forb:
         res["detail"] = "forbidden constructs: " + "; ".join(forb[:5])
         return res
-    rc, out, _ = build(["Props/%s.vo" % prop, "Extract/Extract.vo"])
+    mods = [os.path.basename(f)[:-2] for f in files]
+    rc, out, _ = build(["Props/%s.vo" % m for m in mods] + ["Extract/Extract.vo"])
     if rc != 0:
         res["detail"] = "build failed:\n" + out[-3000:]
-        # how many theorems of the Props file were reached before the error?
-        m = re.search(r'File "\./Props/%s\.v", line (\d+)' % prop, out)
-        if m:
-            upto = int(m.group(1))
-            lines = text.split("\n")[:upto]
-            res["discharged"] = max(0, len(re.findall(
-                r"^\s*(?:Theorem|Example|Lemma)\s+\w+", "\n".join(lines), re.M)) - 1)
+        # how many theorems of the Props files were reached before the error?
+        done = 0
+        for f, m in zip(files, mods):
+            mm = re.search(r'File "\./Props/%s\.v", line (\d+)' % m, out)
+            if mm:
+                lines = texts[f].split("\n")[:int(mm.group(1))]
+                done += max(0, len(re.findall(r"^\s*(?:Theorem|Example|Lemma)\s+\w+", "\n".join(lines), re.M)) - 1)
+            elif os.path.exists(f + "o") and os.path.getmtime(f + "o") >= os.path.getmtime(f):
+                done += len(re.findall(r"^\s*(?:Theorem|Example|Lemma)\s+\w+", texts[f], re.M))
+        res["discharged"] = done if re.search(r'File "\./Props/', out) else 0
         return res
-    # re-run coqc on the Props file itself to capture Print Assumptions
-    r = subprocess.run(
-        ["timeout", "900", "coqc", "-Q", ".", "Iso", "-w",
-         "-notation-overridden,-deprecated-hint-without-locality,"
-         "-deprecated-instance-without-locality",
-         "Props/%s.v" % prop],
-        cwd=COQ, capture_output=True, text=True)
-    if r.returncode != 0:
-        res["detail"] = "coqc Props/%s.v failed:\n%s" % (prop, (r.stdout + r.stderr)[-3000:])
-        return res
-    out = r.stdout
-    closed = out.count("Closed under the global context")
-    axioms = re.findall(r"^Axioms:\n((?:.+\n)+)", out, re.M)
     names = []
-    for block in axioms:
-        for line in block.split("\n"):
-            m = re.match(r"^(\S+)\s*:", line)
-            if m:
-                names.append(m.group(1))
+    for f, m in zip(files, mods):
+        # re-run coqc on the Props file itself to capture Print Assumptions
+        r = subprocess.run(
+            ["timeout", "900", "coqc", "-Q", ".", "Iso", "-w",
+             "-notation-overridden,-deprecated-hint-without-locality,"
+             "-deprecated-instance-without-locality",
+             "Props/%s.v" % m],
+            cwd=COQ, capture_output=True, text=True)
+        if r.returncode != 0:
+            res["detail"] = "coqc Props/%s.v failed:\n%s" % (m, (r.stdout + r.stderr)[-3000:])
+            return res
+        out = r.stdout
+        closed = out.count("Closed under the global context")
+        axioms = re.findall(r"^Axioms:\n((?:.+\n)+)", out, re.M)
+        for block in axioms:
+            for line in block.split("\n"):
+                mm = re.match(r"^(\S+)\s*:", line)
+                if mm:
+                    names.append(mm.group(1))
+        n_print = len(re.findall(r"^\s*Print Assumptions", texts[f], re.M))
+        if closed + len(axioms) < n_print:
+            res["detail"] = "Print Assumptions output incomplete for Props/%s.v" % m
+            return res
     res["axioms"] = sorted(set(names))
-    n_print = len(re.findall(r"^\s*Print Assumptions", text, re.M))
     if set(names) - ALLOWED_AXIOMS:
         res["detail"] = "axioms not in the trusted base: %s" % sorted(set(names))
         return res
-    if closed + len(axioms) < n_print:
-        res["detail"] = "Print Assumptions output incomplete"
-        return res
     if tier == "thorough":
-        # independent re-check of the compiled file and everything it depends on
-        r = subprocess.run(["timeout", "2400", "coqchk", "-silent", "-Q", ".", "Iso", "-o", "Iso.Props.%s" % prop],
+        # independent re-check of the compiled files and everything they depend on
+        r = subprocess.run(["timeout", "3000", "coqchk", "-silent", "-Q", ".", "Iso", "-o"] + ["Iso.Props.%s" % m for m in mods],
                            cwd=COQ, capture_output=True, text=True)
         out = r.stdout + r.stderr
         m = re.search(r"\* Axioms:\s*(.*?)\n\s*\n", out, re.S)
@@ -340,7 +356,8 @@ def write_evidence(prop, tier, seed, obl, cases, nontrivial, hist, samples,
     os.makedirs(os.path.join(VERIF, "evidence"), exist_ok=True)
     cov = dict(
         obligations=obl["obligations"], discharged=obl["discharged"],
-        checker_cmd="tools/build.sh Props/%s.vo Extract/Extract.vo && coqc -Q . Iso Props/%s.v (full .vo build via coq_makefile; Print Assumptions audited)" % (prop, prop),
+        checker_cmd="tools/build.sh %s Extract/Extract.vo && coqc -Q . Iso <each of these Props files> (full .vo build via coq_makefile; Print Assumptions audited)" % (
+            " ".join("Props/" + f + "o" for f in obl.get("files", [prop + ".v"]))),
         trusted_base=TRUSTED_BASE + ["axioms reported by Print Assumptions: %s" % (
             ", ".join(obl["axioms"]) or "none (Closed under the global context)")],
         theorems=obl["theorems"], coqchk_axioms=obl.get("coqchk", "not run in the quick tier"),
